@@ -1011,9 +1011,12 @@ class ValueProxy(BaseProxy):
     'remove',
     'reverse',
     'sort',
-    '__imul__',
 )
 class ListProxy(BaseProxy):
+    # `__imul__` is not in the generated methods above: the generated version
+    # would replace the one defined below and return the hosted method's return value,
+    # i.e. a local copy of the list, so that `lst *= 2` would rebind the caller's
+    # name from the proxy to a plain list.
     def __iadd__(self, value):
         self._callmethod('extend', (value,))
         return self
